@@ -882,6 +882,13 @@ pub mod verif {
         }
     }
 
+    impl super::SyncReport {
+        /// A sync report as a neighbour would send it (`heads` = encoded `AuthorHeads`).
+        pub fn verif_new(namespace: NamespaceId, heads: Vec<u8>) -> Self {
+            Self { namespace, heads }
+        }
+    }
+
     impl LiveActor {
         /// `sync_with_peer`
         pub fn verif_sync_with_peer(
@@ -967,6 +974,11 @@ pub mod verif {
             } else {
                 self.queued_hashes.remove_hash(&hash);
             }
+        }
+
+        /// Deliver one message the way the actor loop does (`on_actor_message`).
+        pub async fn verif_on_actor_message(&mut self, msg: super::ToLiveActor) -> anyhow::Result<bool> {
+            self.on_actor_message(msg).await
         }
 
         /// The node id of this actor.
